@@ -561,7 +561,7 @@ pub fn gen_c03(out: &mut Out, rng: &mut Rng, thorough: bool) {
     }
     // the client surfaces: what a peer's reply can do to a caller of the typed API and of `call`
     {
-        let unit = rng.u8();
+        let unit = rng.unit();
         let head = format!("cli tcp {}", hex8(unit));
         super::client::illformed_typed_replies(out, rng, &head, "tcp", unit, if thorough { 300 } else { 40 });
         for _ in 0..(if thorough { 3000 } else { 300 }) {
@@ -623,7 +623,7 @@ pub fn gen_c03(out: &mut Out, rng: &mut Rng, thorough: bool) {
         let kind = if i % 2 == 0 { "tcp" } else { "rtu" };
         let hint = rng.below(5);
         let req = gen_request(rng, Some(hint));
-        let unit = rng.u8();
+        let unit = rng.unit();
         let good = spec::response_bytes(&answer_for(rng, &req)).unwrap_or_else(|| vec![3, 2, 0, 1]);
         let bad = super::universal::damaged_pdu(rng, &good);
         let f = if kind == "tcp" { spec::mbap(0, unit, &bad) } else { spec::rtu_frame(unit, &bad) };
@@ -731,7 +731,7 @@ pub fn gen_c09(out: &mut Out, rng: &mut Rng, thorough: bool) {
             _ => Request::Custom(gen_custom_fc(rng), Cow::Owned(rng.bytes_in(253, 600))),
         };
         let good = Request::ReadHoldingRegisters(rng.u16(), 1);
-        let slave = rng.u8();
+        let slave = rng.unit();
         let w = *rng.pick(&["", " w=a1,a2,p,a3"]);
         // the reply to the good request: tid is 1 after one consumed id over TCP
         let reply_pdu = spec::response_bytes(&Response::ReadHoldingRegisters(vec![0xBEEF])).unwrap();
